@@ -78,6 +78,19 @@ class SUndef:
     pass
 
 
+class SLazy:
+    """a reference into a linked structure that is materialised on first use (lazy initialisation): either None or a
+    fresh object of class ``cls`` distinct from every object materialised so far (assumption A-LIST: the list is
+    acyclic and its nodes are pairwise distinct)"""
+
+    def __init__(self, cls, name, nullable=True):
+        self.cls = cls
+        self.name = name
+        self.nullable = nullable
+        self.forced = False
+        self.value = None
+
+
 class Obligation:
     def __init__(self, name, kind, tags, goal, pc, where, clause=None):
         self.name = name
@@ -357,6 +370,8 @@ class Run:
     # -- equality ----------------------------------------------------------
     def eq(self, a, b):
         """Python == as python bool / z3 Bool"""
+        if a is b and isinstance(a, SLazy):
+            return True
         for h in SCALARIZE:
             ra, rb = h(self, a), h(self, b)
             a = ra if ra is not None else a
@@ -795,6 +810,7 @@ class Interp:
         return cmp(sop, a, b)
 
     def is_(self, a, b):
+        a, b = self.force(a), self.force(b)
         if isinstance(a, SOpt) and b is None:
             return a.isnone
         if isinstance(b, SOpt) and a is None:
@@ -833,8 +849,21 @@ class Interp:
         base = self.ev(e.value, fr)
         return self.getattr(base, e.attr, fr, e)
 
+    def force(self, v):
+        if isinstance(v, SLazy):
+            if not v.forced:
+                v.forced = True
+                if v.nullable and not self.run.choose("lazy-null"):
+                    v.value = None
+                else:
+                    v.value = self.ctx.reg.make_object(self, v.cls, "lazy!%s!%d" % (v.name, self.run.fresh_n))
+                    self.run.assumed.append("A-LIST: lazily materialised %s nodes are pairwise distinct" % v.cls)
+            return v.value
+        return v
+
     def getattr(self, base, attr, fr, node=None):
         run = self.run
+        base = self.force(base)
         if isinstance(base, SOpt):
             base = run.unopt(base, "receiver of .%s" % attr)
         if isinstance(base, SMod):
@@ -895,6 +924,7 @@ class Interp:
 
     def setattr(self, base, attr, val, fr, node=None):
         run = self.run
+        base = self.force(base)
         if tag(base) == "ghostns":
             run.ghost[(base[1].oid, attr)] = val
             return
